@@ -100,6 +100,19 @@ def has_sig(scratch, case, make_monitors, sig, inject=False):
 def ddmin(scratch, case, make_monitors, sig, budget=30, inject=False):
     steps = list(case['steps'])
     params = case['params']
+    # snapshot-based steps leave the world as they found it: first try to
+    # drop all of them except the last one (usually the failing one)
+    side = ('fault', 'placed', 'rejected', 'twin', 'probe_path')
+    idx = [i for i, st_ in enumerate(steps) if st_['op'] in side]
+    if len(idx) > 1:
+        cand = [st_ for i, st_ in enumerate(steps)
+                if st_['op'] not in side or i == idx[-1]]
+        budget -= 1
+        if has_sig(scratch, {'params': params, 'steps': cand}, make_monitors,
+                   sig, inject=inject):
+            steps = cand
+    if inject:
+        budget = min(budget, 14)
     n = 2
     while len(steps) >= 2 and budget > 0:
         chunk = max(1, len(steps) // n)
